@@ -157,3 +157,58 @@ def type_src(t):
     if t["a"]:
         return t["s"] + "[" + ", ".join(type_src(a) for a in t["a"]) + "]"
     return t["s"]
+
+
+# ------------------------------------------------------------------------------------------------
+# C09
+def run_c09(prop, tier):
+    rep = common.Report(prop, tier)
+    d = tlcrun.fresh_dir(common.outdir(prop, "gen"))
+    cfg = os.path.join(d, "gen.cfg")
+    ctxs = sorted(replay_typed.CB_CONTEXTS)
+    tlcrun.write_cfg(cfg, constants={"Contexts": "{" + ",".join(str(c) for c in ctxs) + "}"}, invariants=["Export"])
+    out = os.path.join(d, "cases.ndjson")
+    st = tlcrun.run("GenCallbacks", cfg, d, env={"OUT_FILE": out}, workers=4)
+    rep.add_tlc(st)
+    cases = [json.loads(c) for c in sorted({line.strip() for line in open(out) if line.strip()})]
+    recs = [replay_typed.run_callback_case(i, c) for i, c in enumerate(cases)]
+    vrecs = [{k: r[k] for k in ("id", "kind", "cs", "fired", "upstream", "calls", "params", "exc")} for r in recs]
+    res, vst = common.validate(prop, "callbacks", "TraceTyped", vrecs, per_shard=100,
+                               verdict_id=lambda v: v["verdict"]["id"])
+    rep.add_tlc(vst)
+    rep.traces = len(recs)
+    rep.evaluations = len(recs)
+    counts = {}
+    for cid, o in sorted(res.items()):
+        v = o["verdict"]
+        r = recs[cid]
+        key = v["v"] + (":" + v["clause"] if v["clause"] else "")
+        counts[key] = counts.get(key, 0) + 1
+        if v["v"] == "ACCEPT":
+            rep.nontrivial += 1
+            if cid % 61 == 0:
+                rep.sample({"case": r["cs"], "query": r["source"], "fired": r["fired"], "emitted": r.get("query", "")})
+        elif v["v"] == "REJECT":
+            rep.reject(cid, v["clause"], {"property": prop, "case": r["cs"], "query": r["source"],
+                                          "context": replay_typed.CB_CONTEXTS[r["cs"]["ctx"]][0],
+                                          "fired": r["fired"], "upstream_metadata": r["upstream"],
+                                          "emitted_query": r.get("query", ""), "exc": r["exc"] + " " + r.get("msg", ""),
+                                          "verdict": v},
+                       tags=kf_tags_c09(r))
+        else:
+            raise common.MachineryError("UNMODELLED record in C09")
+    rep.extra.update(verdicts=counts, contexts={str(k): v[0] for k, v in replay_typed.CB_CONTEXTS.items()})
+    rep.exhaustive = True
+    rep.rule = ("cases = Init states of spec/GenCallbacks.tla: callback placement (class / method / both / function "
+                "processor / parameterised property) x 8 call-site contexts (depth 0-3 in Select / Where / SelectMany "
+                "lambdas of the stream and of typed collections, first or second stage, on First()) x one or two call "
+                "sites x callbacks that rewrite the call site or not; every class of a generated model carries the "
+                "placement, a decoy class with callbacks is never used; callbacks log (kind, site) and attach "
+                "MetaData; TLC judges firings (multiset, class before method, none for absent sites), MetaData upstream "
+                "of the operator holding the site, the emitted (rewritten) call, parameters by value")
+    rep.assumptions = ["call sites are identified by their first (constant) argument"]
+    return rep.finish()
+
+
+def kf_tags_c09(r):
+    return set()
